@@ -83,7 +83,8 @@ def run(ctx):
         ctx.sample(witness(o, cases[o["case"]]))
     ctx.cov["rule"] = ("cases printed by TLC from spec/Paging.tla: collection sizes %s plus 999, 1000, 1001 x page sizes "
                        "-5..0, 1, 2, 3, 7, 50, 1000, 5000 and random ones, with random id sets drawn from a dense "
-                       "prefix-closed key space (many ids are prefixes of each other); plus 9 classes of corrupted / "
+                       "prefix-closed key space over a digit, upper/lower case, accented and CJK characters (many ids are "
+                       "prefixes of each other; byte order differs from case-folded / collated order); plus 9 classes of corrupted / "
                        "foreign first tokens per scheme; each case runs on every model server of its token scheme "
                        "(6 last-key servers, waste's index scheme); one evaluation = one followed token chain; "
                        "non-trivial = more than one request, an error or a panic; distinct = distinct (server, n, "
